@@ -433,11 +433,13 @@ def _guard_envs(forms, argspecs, limit=240):
         if not isinstance(x, tuple) or id(x) in seen:
             continue
         seen.add(id(x))
-        if x[0] == "icmp":
+        if x[0] in ("icmp", "fcmp"):
+            # (a float threshold is a constant like any other: the operand's bit pattern equal to it, and the
+            # two adjacent patterns, are the inputs on either side of the branch)
             a, b = x[3], x[4]
             if a[0] == "const":
                 a, b = b, a
-            if b[0] == "const" and a[0] != "const" and a[1] >= 4:
+            if b[0] == "const" and a[0] != "const" and a[1] >= 4 and (x[0] == "icmp" or b[2] != 0):
                 guards.append((a, b[2]))
         stack.extend(y for y in x[2:] if isinstance(y, tuple))
     if not guards:
